@@ -235,6 +235,29 @@ def check(case):
                 g['new'] = 1
             check_sources(f'after request {req}')
             del ds
+        if backend == 'json' and case.get('rewrite'):
+            # the files are rewritten (other payloads); a NEW database on the same paths must see the new content
+            parts2 = copy.deepcopy(pristine)
+            for p2 in parts2:
+                for dsn, exs in p2['datasets'].items():
+                    for eid, ex in exs.items():
+                        ex['v'] = 'rewritten-' + str(ex.get('v'))
+            paths = []
+            for i, p2 in enumerate(parts2):
+                path = Path(tmp) / f'part{i}.json'
+                path.write_text(json.dumps(p2))
+                paths.append(str(path) if i % 2 == 0 else path)
+            db3 = database.JsonDatabase(paths) if form == 'list' else database.JsonDatabase(*paths)
+            d3, a3, _ = model_merge(parts2)
+            for name in list(d3) + list(a3):
+                want3 = expected(d3, a3, name)
+                if isinstance(want3, tuple):
+                    continue
+                got3 = list(db3.get_dataset(name))
+                if got3 != want3:
+                    raise Violation('stale-file-content', f'{desc}\nafter the JSON files were rewritten a new '
+                                                          f'JsonDatabase answers {name!r} with {got3}\nexpected {want3}')
+            events.add('files-rewritten')
         return events
     finally:
         if tmp:
@@ -291,7 +314,8 @@ def st_case(draw):
         else:
             reqs.append(['get', draw(st.sampled_from(names_all)), draw(st.booleans())])
     return {'backend': draw(st.sampled_from(['dict', 'json'])), 'form': draw(st.sampled_from(['varargs', 'list'])),
-            'parts': parts, 'requests': reqs, 'second_db': draw(st.integers(0, 3)) == 0}
+            'parts': parts, 'requests': reqs, 'second_db': draw(st.integers(0, 3)) == 0,
+            'rewrite': draw(st.integers(0, 2)) == 0}
 
 
 def run_shard(tier, idx, nshards, rec, known):
